@@ -318,10 +318,22 @@ impl<'m> VariantMetadata<'m> {
                 // Since shallow validation ensures the first and last offsets are in bounds,
                 // we can also verify all offsets are in-bounds by checking if
                 // offsets are monotonically increasing
-                if !offsets.is_sorted_by(|a, b| a < b) {
-                    return Err(ArrowError::InvalidArgumentError(
-                        "offsets not monotonically increasing".to_string(),
-                    ));
+                //
+                // The value buffer was validated as a whole: every offset must also fall on a
+                // character boundary, or a dictionary entry is not a valid string by itself
+                let mut prev_offset: Option<usize> = None;
+                for offset in offsets {
+                    if prev_offset.is_some_and(|prev| offset <= prev) {
+                        return Err(ArrowError::InvalidArgumentError(
+                            "offsets not monotonically increasing".to_string(),
+                        ));
+                    }
+                    if !value_buffer.is_char_boundary(offset) {
+                        return Err(ArrowError::InvalidArgumentError(format!(
+                            "offset {offset} is not a character boundary of the dictionary values"
+                        )));
+                    }
+                    prev_offset = Some(offset);
                 }
             }
 
